@@ -1162,20 +1162,24 @@ def _m_str_simple(name):
 
 
 def _m_list_append(i, l, a, k, n):
+    i.mutated(l, n)
     l.items.append(a[0])
     if i.hooks is not None and hasattr(i.hooks, "on_append"):
         i.hooks.on_append(i, l, a[0], n)
 
 
 def _m_list_extend(i, l, a, k, n):
+    i.mutated(l, n)
     i.list_extend(l, a[0], n)
 
 
 def _m_list_clear(i, l, a, k, n):
+    i.mutated(l, n)
     l.items.clear()
 
 
 def _m_list_pop(i, l, a, k, n):
+    i.mutated(l, n)
     try:
         return l.items.pop(*[x for x in a])
     except IndexError:
@@ -1194,6 +1198,7 @@ def _m_list_index(i, l, a, k, n):
 
 
 def _m_list_insert(i, l, a, k, n):
+    i.mutated(l, n)
     l.items.insert(a[0], a[1])
 
 
@@ -1202,10 +1207,12 @@ def _m_list_copy(i, l, a, k, n):
 
 
 def _m_list_sort(i, l, a, k, n):
+    i.mutated(l, n)
     l.items.sort(key=_sort_key)
 
 
 def _m_list_reverse(i, l, a, k, n):
+    i.mutated(l, n)
     l.items.reverse()
 
 
@@ -1237,6 +1244,7 @@ def _m_dict_values(i, d, a, k, n):
 
 
 def _m_dict_update(i, d, a, k, n):
+    i.mutated(d, n)
     if a:
         src = a[0]
         if isinstance(src, DictV):
@@ -1259,6 +1267,7 @@ def _m_dict_update(i, d, a, k, n):
 
 
 def _m_dict_pop(i, d, a, k, n):
+    i.mutated(d, n)
     key = i.hashable(a[0], n)
     if key in d.items:
         return d.items.pop(key)
@@ -1270,10 +1279,12 @@ def _m_dict_pop(i, d, a, k, n):
 
 
 def _m_dict_clear(i, d, a, k, n):
+    i.mutated(d, n)
     d.items.clear()
 
 
 def _m_dict_setdefault(i, d, a, k, n):
+    i.mutated(d, n)
     key = i.hashable(a[0], n)
     if key not in d.items:
         d.items[key] = a[1] if len(a) > 1 else None
@@ -1289,6 +1300,7 @@ def _m_tuple_index(i, t, a, k, n):
 
 
 def _m_set_add(i, s, a, k, n):
+    i.mutated(s, n)
     if not any(i.equal(x, a[0], n) is True for x in s.items):
         s.items.append(a[0])
 
